@@ -212,7 +212,7 @@ Definition insert_rule (rx : bool) (simple : option dict) (clean : bool)
           if clean then
             match clean_namespaces rs' with
             | (rs'', None) => (rs'', Ret (Some i))
-            | (rs'', Some e) => (rs'', Exc e)
+            | (_, Some e) => (rs, Exc e)        (* _cleanNamespaces refused: the old list is restored (a5cb308) *)
             end
           else (rs', Ret (Some i))
       else (insert_at i r rs, Ret (Some i))
@@ -302,7 +302,9 @@ Definition parse_step (rx : bool) (st : pstate) (p : proto) : pstate + exn :=
           else inl (Some (mkRule k 0 0 (penc p) [] [])) in
       match built with
       | inr e => inr e
-      | inl None => inl (mkP (p_rules st) (p_ns st) (next (p_expected st)))
+      | inl None =>        (* not wellformed: dropped; some handlers then leave the order state alone *)
+        inl (mkP (p_rules st) (p_ns st)
+                 (if kin k parse_malformed_keeps_state then p_expected st else next (p_expected st)))
       | inl (Some r) =>
         match insert_rule rx (Some (p_ns st)) true (p_rules st) r None false with
         | (rs, Exc e) => inr e
@@ -311,12 +313,15 @@ Definition parse_step (rx : bool) (st : pstate) (p : proto) : pstate + exn :=
       end
   end.
 
+(* the statements of a text are separated by whitespace: the S handler sets expected = max(1, expected) *)
+Definition after_S (st : pstate) : pstate := mkP (p_rules st) (p_ns st) (Nat.max 1 (p_expected st)).
+
 Fixpoint parse_loop (rx : bool) (st : pstate) (ps : list proto) : pstate + exn :=
   match ps with
   | [] => inl st
   | p :: r => match parse_step rx st p with
               | inr e => inr e
-              | inl st' => parse_loop rx st' r
+              | inl st' => parse_loop rx (after_S st') r
               end
   end.
 
